@@ -282,7 +282,10 @@ func emitStreamAfterHeader(cw *caseWriter, prop string, ti, to []colDesc, data [
 
 var streamLines = []string{`{"a":1}`, `{"b":"x","a":null}`, ``, `{`, `[1]`, `{"a":"notanumber"}`, `{"a":2,"z":[1,{"q":1}]}`, `   `, `{"a":1} trailing`, `{}`, `null`, `{"a":3}`,
 	// an escaped line feed (and other control characters) in a member name and in a value: still one line out
-	`{"k\nk":1,"a":2,"v":"x\ny\r\n"}`, `{"\u000a":"\u000a","\t\u0000":[{"\n":1}]}`}
+	`{"k\nk":1,"a":2,"v":"x\ny\r\n"}`, `{"\u000a":"\u000a","\t\u0000":[{"\n":1}]}`,
+	// the shortest texts a recogniser of numbers meets (a lone sign, point or exponent mark), and an array that does
+	// not hold one kind of thing
+	`{"a":"-"}`, `{"a":"+"}`, `{"a":"."}`, `{"a":"e"}`, `{"a":""}`, `{"a":"-."}`, `{"a":"-0"}`, `{"a":".5"}`, `{"a":"5."}`, `{"a":4,"l":[{"q":1},2,null]}`}
 
 // oddLines: the lines of other framings of the same data (a pretty-printed object or array spread over several
 // lines, so lines that START with a closing or separating character or stop with a bracket still open),
